@@ -91,7 +91,7 @@ fn probes(site: &TSite, orig: &V, dense: bool) -> Vec<(String, V)> {
         }
         _ => {}
     }
-    if matches!(site.ty, Ty::Params | Ty::List(..)) {
+    if matches!(site.ty, Ty::Params | Ty::List(..)) && accepts_reordered_entries() {
         // the same lists with the members of every entry in the other order
         let rev: Vec<(String, V)> = out.iter().map(|(w, v)| (format!("{} (entry members reversed)", w), reverse_maps(v))).filter(|(_, v)| !out.iter().any(|(_, o)| o == v)).collect();
         out.extend(rev);
@@ -106,6 +106,8 @@ fn bounded(ty: &Ty) -> bool {
 pub fn run(ctx: &'static Ctx) {
     ctx.rule("state = (seed message, bounded member, probe value); the mutated message is decoded by the real code and compared in full with the reference decoder (accept iff within the declared limit; accepted values whole); non-trivial = every probe");
     ctx.assume("limits come from the specification tables in spec.rs, not from sizes.rs; COSE kty/alg/crv sign and value checks are part of the reference decoder");
+    // window around every limit in the pair / context spaces: c-1..=c+1, thorough c-4..=c+4
+    let span: usize = if ctx.thorough() { 4 } else { 1 };
     let mut seeds = seed_msgs(false);
     // limits do not depend on the order in which members arrive either
     seeds.extend(reversed_full_seeds());
@@ -150,7 +152,7 @@ pub fn run(ctx: &'static Ctx) {
                 }
                 _ => unreachable!(),
             };
-            probes(site, orig, true).into_iter().filter(|(w, _)| [c.saturating_sub(1), c, c + 1].iter().any(|n| w.ends_with(&format!("({})", n)))).collect()
+            probes(site, orig, true).into_iter().filter(|(w, _)| (c.saturating_sub(span)..=c + span).any(|n| w.ends_with(&format!("({})", n)))).collect()
         };
         for a in 0..sites.len() {
             for b in a + 1..sites.len() {
@@ -211,7 +213,7 @@ pub fn run(ctx: &'static Ctx) {
                     Ty::List(_, Some(c)) => *c,
                     _ => return vec![],
                 };
-                probes(site, orig, true).into_iter().filter(|(w, _)| [c.saturating_sub(1), c, c + 1].iter().any(|n| w.ends_with(&format!("({})", n)))).collect()
+                probes(site, orig, true).into_iter().filter(|(w, _)| (c.saturating_sub(span)..=c + span).any(|n| w.ends_with(&format!("({})", n)))).collect()
             };
             for a in &sites {
                 let ea = edge(a);
